@@ -23,13 +23,16 @@ import (
 	"testing"
 	"time"
 
+	"github.com/alicebob/miniredis/v2"
 	"github.com/nuts-foundation/go-did/did"
 	"github.com/nuts-foundation/go-stoabs"
+	"github.com/nuts-foundation/go-stoabs/redis7"
 	"github.com/nuts-foundation/nuts-node/core"
 	"github.com/nuts-foundation/nuts-node/crypto/hash"
 	"github.com/nuts-foundation/nuts-node/storage"
 	"github.com/nuts-foundation/nuts-node/vdr/didnuts/util"
 	"github.com/nuts-foundation/nuts-node/vdr/resolver"
+	"github.com/redis/go-redis/v9"
 )
 
 type vEntry struct {
@@ -60,6 +63,9 @@ type vOp struct {
 	Op      string   `json:"op"`
 	Set     int      `json:"set"`
 	TU      string   `json:"tu,omitempty"` // time unit of events[].time / times / probes[].t
+	// Backend: "" = bbolt (reads inside a write transaction see its own writes); "redis" = go-stoabs redis7 on miniredis
+	// (writes are sent on commit: a read inside a write transaction sees COMMITTED data only). The model is the same.
+	Backend string   `json:"backend,omitempty"`
 	Events  []vEvent `json:"events"`  // the event set (index = event number)
 	Arrival []int    `json:"arrival"` // arrival order (indexes into events; may repeat)
 	// Fail is parallel to Arrival: 0 = plain Add; 1 = the first write transaction of Add fails; 2 = a stop between
@@ -658,6 +664,8 @@ func vToOpEvents(evs []vGenEvent) ([]vEvent, []int64, map[string]did.DID) {
 	return out, times, dids
 }
 
+var vSortIterate bool
+
 var vUnknownHash = hash.SHA256Sum([]byte("verif: occurs nowhere"))
 
 // vObserve prints the full canonical observable state of the store for the DIDs of the set.
@@ -705,6 +713,9 @@ func vObserve(s *store, evs []vGenEvent, times []int64, dids map[string]did.DID,
 		iter[doc.ID.String()] = obs.showDocMeta(doc, md)
 		return nil
 	})
+	if vSortIterate {
+		sort.Strings(iterOrder)
+	}
 	found := map[string]string{}
 	nfound := 0
 	if docs, err := (Finder{Store: s}).Find(resolver.IsActive()); err == nil {
@@ -835,10 +846,30 @@ func TestVerifC10(t *testing.T) {
 		f.Close()
 	}
 	dbN := 0
-	runSeq := func(set int, evs []vGenEvent, arrival []int, fail []int, probes []vProbe) {
+	var redisServer *miniredis.Miniredis
+	runSeq := func(set int, evs []vGenEvent, arrival []int, fail []int, probes []vProbe, backend string) {
 		dbN++
 		path := filepath.Join(outDir, fmt.Sprintf("db%d.db", dbN))
-		s, db := vNewStore(t, path)
+		var s *store
+		var db stoabs.KVStore
+		if backend == "redis" {
+			if redisServer == nil {
+				redisServer = miniredis.RunT(t)
+			}
+			redisServer.FlushAll()
+			rdb, err := redis7.CreateRedisStore(fmt.Sprintf("db%d", dbN), &redis.Options{Addr: redisServer.Addr()})
+			if err != nil {
+				t.Fatal(err)
+			}
+			db = rdb
+			s = New(&storage.StaticKVStoreProvider{Store: db}).(*store)
+			if err := s.Configure(core.ServerConfig{}); err != nil {
+				t.Fatal(err)
+			}
+		} else {
+			s, db = vNewStore(t, path)
+		}
+		vSortIterate = backend == "redis" // redis SCAN has no key order: the order of Iterate is the backend's, not the store's
 		addErrs := ""
 		for pos, k := range arrival {
 			code := 0
@@ -876,7 +907,7 @@ func TestVerifC10(t *testing.T) {
 			}()
 		}
 		opEvents, times, dids := vToOpEvents(evs)
-		op := vOp{Op: "seq", Set: set, TU: "ns", Arrival: arrival, Fail: fail, Events: opEvents, Times: times, Probes: probes, Bodies: map[string]string{}}
+		op := vOp{Op: "seq", Set: set, TU: "ns", Backend: backend, Arrival: arrival, Fail: fail, Events: opEvents, Times: times, Probes: probes, Bodies: map[string]string{}}
 		for _, e := range opEvents {
 			for _, l := range e.Doc.F {
 				for _, en := range l {
@@ -905,7 +936,7 @@ func TestVerifC10(t *testing.T) {
 	}
 	if replayOps != nil {
 		for _, op := range replayOps {
-			runSeq(op.Set, vFromOp(op), op.Arrival, op.Fail, op.Probes)
+			runSeq(op.Set, vFromOp(op), op.Arrival, op.Fail, op.Probes, op.Backend)
 		}
 		return
 	}
@@ -924,18 +955,28 @@ func TestVerifC10(t *testing.T) {
 				var op vOp
 				if json.Unmarshal(sc.Bytes(), &op) == nil && op.Op == "seq" {
 					evs := vFromOp(op)
-					runSeq(-1-fi, evs, op.Arrival, op.Fail, op.Probes)
+					runSeq(-1-fi, evs, op.Arrival, op.Fail, op.Probes, op.Backend)
 					// and the reverse arrival order
 					rev := append([]int(nil), op.Arrival...)
 					for i, j := 0, len(rev)-1; i < j; i, j = i+1, j-1 {
 						rev[i], rev[j] = rev[j], rev[i]
 					}
-					runSeq(-1-fi, evs, rev, nil, op.Probes)
+					runSeq(-1-fi, evs, rev, nil, op.Probes, op.Backend)
+					// and both on the other supported backend
+					if op.Backend == "" {
+						runSeq(-1-fi, evs, op.Arrival, append([]int(nil), op.Fail...), op.Probes, "redis")
+						runSeq(-1-fi, evs, rev, nil, op.Probes, "redis")
+					}
 				}
 			}
 			f.Close()
 		}
 	}
+	redisEvery, _ := strconv.Atoi(os.Getenv("VERIF_REDIS_EVERY")) // every k-th sequence runs on the redis backend (0 = none)
+	if os.Getenv("VERIF_REDIS_EVERY") == "" {
+		redisEvery = 5
+	}
+	seqN := 0
 	for set := 0; set < nSets; set++ {
 		n := 1 + rng.Intn(6)
 		switch rng.Intn(10) {
@@ -996,7 +1037,12 @@ func TestVerifC10(t *testing.T) {
 					}
 				}
 			}
-			runSeq(set, evs, arrival, fail, probes)
+			backend := ""
+			if redisEvery > 0 && (seqN%redisEvery == redisEvery-1 || (n <= 4 && seqN%2 == 1)) {
+				backend = "redis"
+			}
+			seqN++
+			runSeq(set, evs, arrival, fail, probes, backend)
 		}
 	}
 }
